@@ -254,6 +254,33 @@ theorem pfl_c (s : St) (l o : Bool) :
 
 end
 
+/-! ## the traversals (hive only: `Range`, `RangeReverse`, `ForEach`, `ForEachReverse`) -/
+
+theorem value_c (s : St) (e : Nat) : semElem hive_code .Value e (conc s) = .word (valueOf s e) := by
+  have key : sem hive_code .Value [e] false (conc s) =
+      if (decide (e < 3)) = true then (conc s, Val.word 0) else (conc s, .word (s.heap e).val) := rfl
+  unfold semElem valueOf; rw [key]; by_cases h : e < 3 <;> simp [h]
+
+theorem walk_fwd (w : WalkFn) (hw : w.adv = .Next) (s : St) : ∀ (fuel e : Nat),
+    walkSem hive_code w (conc s) fuel e = walkF s fuel e := by
+  intro fuel
+  induction fuel with
+  | zero => intro e; rfl
+  | succ f ih =>
+    intro e
+    unfold walkSem walkF
+    rw [value_c, hw, next_c (fun _ _ => rfl), ih]; rfl
+
+theorem walk_bwd (w : WalkFn) (hw : w.adv = .Prev) (s : St) : ∀ (fuel e : Nat),
+    walkSem hive_code w (conc s) fuel e = walkB s fuel e := by
+  intro fuel
+  induction fuel with
+  | zero => intro e; rfl
+  | succ f ih =>
+    intro e
+    unfold walkSem walkB
+    rw [value_c, hw, prev_c (fun _ _ => rfl), ih]; rfl
+
 /-- **Every operation of a library whose code is the translated code is the model's `step`** — on every state. -/
 theorem code_step {lib : Lib} (a : Agrees lib) (s : St) (op : Op) :
     semOp lib op (conc s) = (conc (step s op).1, outVal (step s op).2) := by
